@@ -28,7 +28,14 @@ RULE = ('random functional expression trees (depth <= 3 quick, <= 4 thorough) x 
         'points/directions on the dyadic grid k/4; per tree: value, gradient, derivative, '
         'grad_lipschitz vs the Lean model and vs the oracles. A case is non-trivial when the '
         'gradient (resp. value) is not identically zero; distinct = distinct (space kind, '
-        'set of functional classes in the tree, operation) signatures among non-trivial cases.')
+        'set of functional classes in the tree, operation) signatures among non-trivial cases. '
+        'Round 4 streams leaves/*: KullbackLeibler / KullbackLeiblerConvexConj gradients (priors '
+        'None / vector, points inside, outside the domain and at the singularity), L2Norm value '
+        'and gradient (x = 0, rational and irrational norms), IndicatorBox / '
+        'IndicatorNonnegativity values (scalar / element / one-sided / absent bounds, inside, '
+        'boundary, outside) on all 9 spaces, SeparableSum value / gradient / derivative of random '
+        'part trees on the 3 product spaces; each vs Model/FunctionalsLeaves.lean and vs its own '
+        'oracle (documented formula, finite differences, documented indicator, part gradients).')
 TRUSTED = ['serialiser tools/harness/functionals_common.py:wire (live ODL functional object -> '
            'model expression, by class and attributes)',
            'NumPy ufuncs / inner products (modelled as exact entry-wise maps and weighted sums)']
@@ -37,6 +44,11 @@ ASSUMPTIONS = ['floating-point rounding is outside the model: exact-stream input
                'operators inside FunctionalComp/QuadraticForm are matrices, scalings, pointwise '
                'multiplications and integer powers in the executable model; other operators are '
                'covered by the abstract chain-rule theorem and by the finite-difference oracle only',
+               'L2Norm: np.sqrt is a parameter of the model (exact rational root or 2^-64 accurate in '
+               'the driver, Real.sqrt in the theorems); the gradient x / x.norm() is compared to 1e-14 '
+               'relative because x.norm() is not computed as sqrt(x.inner(x)) on weighted spaces',
+               'IndicatorBox with inverted element bounds (lower_i > upper_i, not validated by the '
+               'code) is outside the documented-value oracle; model and code are still compared there',
                'kink points of non-smooth functionals (detected by the Richardson rate check) are '
                'outside the property (interior of the domain of differentiability)']
 
